@@ -106,6 +106,7 @@ func runC05(c *kit.Ctx) {
 
 	// ---- R2 ---------------------------------------------------------------
 	c.StartRule("R2", "declared cellblock length and written cellblocks are paired", 6)
+	multiBuildsItsRequestInFreshMemory(c)
 	scbName := "(" + kit.Module + "/region.canSerializeCellBlocks).SerializeCellBlocks"
 	{
 		mpCalls := kit.Calls(send, kit.M("region", "", "marshalProto"))
@@ -249,6 +250,7 @@ func runC05(c *kit.Ctx) {
 
 	// ---- R4 ---------------------------------------------------------------
 	c.StartRule("R4", "header provenance", 4)
+	scannerRequestsCarryThePriority(c)
 	callIDDiscipline(c)
 	{
 		rpcParam := paramOfType(mp, "/hrpc.Call", 0)
@@ -298,6 +300,8 @@ func runC05(c *kit.Ctx) {
 	scanRequestLevelOptions(c)
 	serialisingDoesNotChangeTheCall(c)
 	accumulatorIsHandedBack(c)
+	storedSlicesAreNotReused(c)
+	constructorsForwardTheirOptions(c)
 	cellblockFormMatchesProtoForm(c)
 	clientSide := map[string]string{
 		"base.ctx":                 "cancellation only",
